@@ -587,20 +587,22 @@ theorem step_noOverwrite {okf : Nat} {s s' : State} {a : Action} (h : step okf s
     · rename_i j hj
       split at hf
       · cases hf
-      · injection hf with hf; subst hf
-        intro a i p hp
-        rw [mapped_setApp s app _ a i _ rfl _ rfl]
-        by_cases ha : a = app
-        · subst ha
-          unfold mapped at hp; rw [happ] at hp; simp only at hp
-          simp only [if_true]
-          by_cases hij : i = j
-          · subst hij
-            right
-            simp [List.getD_eq_getElem?_getD, List.getElem?_set]
-            split <;> rfl
-          · left; rw [getD_set_ne hij]; exact hp
-        · left; simp [ha, hp]
+      · split at hf
+        · injection hf with hf; subst hf
+          intro a i p hp
+          rw [mapped_setApp s app _ a i _ rfl _ rfl]
+          by_cases ha : a = app
+          · subst ha
+            unfold mapped at hp; rw [happ] at hp; simp only at hp
+            simp only [if_true]
+            by_cases hij : i = j
+            · subst hij
+              right
+              simp [List.getD_eq_getElem?_getD, List.getElem?_set]
+              split <;> rfl
+            · left; rw [getD_set_ne hij]; exact hp
+          · left; simp [ha, hp]
+        · cases hf
   | create sub remote purpose isK number qAddr resAddr =>
     simp only [step] at h
     obtain ⟨app, m, _, _, hf⟩ := withApp_some h
